@@ -66,6 +66,8 @@ SEQS = {
     "toggle-rule-restart": ["P0", "Tr", "P1", "Ur", "R", "P2"],
     "batch-then-scalar": ["B0", "P1", "B2"],
     "copy-of-restarted": ["P0", "R", "C", "cP1", "cCHECK_GRAPH"],
+    "copy-twice": ["P0", "C", "cE", "cP1", "C", "cCHECK_GRAPH", "cP0", "P1"],          # the second copy is again a copy of the ORIGINAL as it is now
+    "copy-again-after-edit": ["C", "cP0", "E", "C", "cP1", "P1"],
     "toggle-variable": ["Tv", "P0", "Uv", "P1"],
     "restart-while-output-disabled": ["P0", "Tv", "R", "Uv", "CHECK_RESTARTED", "P1"],
     "restart-while-input-disabled": ["P0", "Ti", "R", "Ui", "CHECK_RESTARTED", "P1"],
